@@ -20,8 +20,8 @@ def job(j):
     st = {"w": None, "n": 0, "viol": [], "distinct": set(), "samples": [], "done_static": set()}
 
     def flag(rec, way, q, variables, mm, resp):
-        if mm and len(st["viol"]) < 80:
-            st["viol"].append(({"kind": "way-cell", "way": way, "type": render.typeref(rec["type"]), "first": mm[0][:100]},
+        if mm and len(st["viol"]) < 400:
+            genrun.add_viol(st["viol"], ({"kind": "way-cell", "way": way, "type": render.typeref(rec["type"]), "first": mm[0][:100]},
                                {"cell": rec, "query": q, "variables": repr(variables), "mismatches": mm, "response": repr(resp)[:1200]}))
 
     def expect_args(w, resp, field, exp, way):
